@@ -74,6 +74,7 @@ type pipeCfg struct {
 	// SO_BROADCAST) and the mirror worker returns; nobody drains the mirror queues from then on
 	mirrorDead bool
 	qcap       int // capacity of every queue created with a literal capacity (0 = as written, 1000)
+	udpSize    int // <protocol>-max-udp-size (0 = the default 1500)
 }
 
 // resetPipe re-creates every package-level object of one pipeline and the options.
@@ -99,6 +100,9 @@ func resetPipe(c pipeCfg) proto {
 	mcap := 1000
 	if c.qcap > 0 {
 		mcap = c.qcap
+	}
+	if c.udpSize > 0 {
+		o.IPFIXUDPSize, o.NetflowV9UDPSize, o.NetflowV5UDPSize, o.SFlowUDPSize = c.udpSize, c.udpSize, c.udpSize, c.udpSize
 	}
 	opts = o
 	switch c.proto {
@@ -423,7 +427,8 @@ type pipeRun struct {
 	// mirrorDead + qcap: the mirror target refuses every packet and all queues hold qcap entries
 	mirrorDead bool
 	qcap       int
-	mqCap      int // capacity of the outgoing queue (0 = 1000); nobody consumes it during a run
+	mqCap      int  // capacity of the outgoing queue (0 = 1000); nobody consumes it during a run
+	fitBuffer  bool // max-udp-size is set to the length of the longest datagram of the run: it fills the receive buffer exactly
 }
 
 type pipeObs struct {
@@ -472,6 +477,13 @@ func runPipe(r *pipeRun, out *pipeObs, mu *realsync.Mutex) {
 		drainMirror()
 	}
 	cfg.mirrorDead, cfg.qcap = r.mirrorDead, r.qcap
+	if r.fitBuffer {
+		for _, d := range r.seq {
+			if len(d.wire) > cfg.udpSize {
+				cfg.udpSize = len(d.wire)
+			}
+		}
+	}
 	if r.mqCap > 0 {
 		cfg.mqCap = r.mqCap
 	}
@@ -557,6 +569,11 @@ func checkPipe(r *pipeRun, e pipeExp, o pipeObs) (string, string) {
 		// ... and with a mirror that takes everything (queues of 1000 entries, a handful of datagrams) EVERY
 		// received datagram is re-emitted, decodable or not
 		if !r.mirrorDead {
+			for _, d := range r.seq { // an IPv6 exporter cannot be mirrored towards an IPv4 target (the statement is about IPv4 exporters)
+				if d.ip.To4() == nil {
+					delete(want, d.ip.String()+"|"+string(d.wire))
+				}
+			}
 			for k, n := range want {
 				if n > 0 {
 					return name + ":mirror:not-mirrored", fmt.Sprintf("a received datagram was not re-emitted to the third party: %d octets from %s (%d of %d datagrams arrived)", len(k)-strings.Index(k, "|")-1, k[:strings.Index(k, "|")], len(o.mirrored), len(r.seq))
@@ -970,6 +987,8 @@ func c13Items(tier string) []pipeItem {
 				}
 			}
 		}
+		// a datagram that fills the receive buffer EXACTLY (its length = <protocol>-max-udp-size) is a complete datagram
+		out = append(out, pipeItem{"receive buffer exactly as large as the longest datagram: dataB-short,dataA-long,dataA-mid", pipeRun{proto: p, workers: 1, seq: seqOf(al, "dataB-short", "dataA-long", "dataA-mid"), cache: cache, filter: filter, fitBuffer: true}, 1})
 		// the OUTGOING queue holds one message and nobody takes it: the workers must drop, not block, and go on counting
 		out = append(out, pipeItem{"outgoing queue of 1: dataB-short,dataA-mid,dataB-short", pipeRun{proto: p, workers: 2, seq: seqOf(al, "dataB-short", "dataA-mid", "dataB-short"), cache: cache, filter: filter, mqCap: 1}, 1})
 		// the receive queue holds one datagram: the receive loop has to wait for the workers
@@ -1342,6 +1361,9 @@ func c16Items(tier string) []pipeItem {
 			out = append(out, pipeItem{"mirroring on", pipeRun{proto: p, workers: w, seq: seqOf(al, "dataA-long", "dataB-short", "dataA-mid"), cache: cache, mirror: true}, b})
 			out = append(out, pipeItem{"mirroring on, undecodable datagrams among the good ones", pipeRun{proto: p, workers: w, seq: seqOf(al, "wrong-version", "dataB-short", "truncated", "dataA-mid"), cache: cache, mirror: true}, b})
 		}
+		// an IPv6 exporter among the IPv4 ones (the target is IPv4): its datagrams cannot be mirrored, the others must be
+		v6 := pdgram{"dataB-short-from-an-IPv6-exporter", net.ParseIP("2001:db8::77"), al["dataB-short"].wire}
+		out = append(out, pipeItem{"mirroring on, an IPv6 exporter first", pipeRun{proto: p, workers: 1, seq: append([]pdgram{v6}, seqOf(al, "dataA-long", "dataB-short", "dataA-mid")...), cache: cache, mirror: true}, b})
 		// the mirror target refuses every packet (the mirror worker gives up) and every queue holds ONE entry:
 		// after a few datagrams the mirror queues are full for good - decoding must go on regardless
 		out = append(out, pipeItem{"mirror dead, queues of one entry", pipeRun{proto: p, workers: 1, seq: seqOf(al, "dataA-mid", "dataB-short", "dataA-mid", "dataB-short", "dataA-mid", "dataB-short", "dataA-long"), cache: cache, mirror: true, mirrorDead: true, qcap: 1, paced: true}, b})
